@@ -83,3 +83,10 @@ claim("C03", "other", "grammar/ATN precedence table extraction + syntax-directed
       "(tables derived from the grammar); true division is defined for every divisor kind (integer kinds are cast before the inverse); A[k] is row-major.",
       "Not decided: accuracy within 1e-12 and overflow (library arithmetic, trusted).",
       "DESIGN.md 5/C03")
+
+claim("C02", "other", "context typing against the generated parser, grammar-derived child-presence profiles vs dispatch chains (exhaustiveness), def-use provenance of metadata and arguments, effect counting on exitStatement paths",
+      "Decides: handlers are live and every accessor used exists on its context class; every dispatch chain covers all child-presence profiles the grammar allows and every dereferenced accessor result is guaranteed or guarded; "
+      "metadata fields are the exact token texts; arguments are the evaluator's results stored unmodified in source order; every non-deferred completion of exitStatement adds exactly one entry at the end built from the statement; "
+      "modes are stored only if integer; reported modes/length/fields are the accumulated ones.",
+      "Not decided: the values of arguments (C03); walker order (trusted). Known finding: the empty-list alternative of kwarg is dropped (pinned by an existing unit test).",
+      "DESIGN.md 5/C02")
